@@ -56,17 +56,16 @@ def slim(rec):
 
 def adjudicate(rep, records, owned, *, trace_module="Trace_Codec", nontrivial=None, findings=None):
     """Validate records with TLC and sort the verdicts into accepted / known finding / violation."""
-    ok = [r for r in records if "loaderr" not in r]
-    bad = [r for r in records if "loaderr" in r]
+    rep.evaluations += len(records)
+    ok = []
+    for r in records:
+        if "loaderr" in r:
+            # a definition that does not load is judged by the specification too: it must be ill-formed (straddling bit-field)
+            r = {"id": 0, "kind": "load", "type": r["type"], "mode": r["mode"], "consts": r.get("consts") or {"_": 0}, "defs": r["defs"],
+                 "req_compiled": r.get("req_compiled"), "loaded": False, "exc": r["loaderr"], "input": [], "start": 0}
+        ok.append(r)
     for i, r in enumerate(ok):          # ids must be unique within a batch
         r["id"] = i
-    rep.evaluations += len(records)
-    for r in bad:
-        if "load" in owned:
-            rep.violation(f"definition could not be loaded: {r['loaderr']} :: {r['defs'][:200]}",
-                          {"kind": "load", "record": r, "python": repro_snippet(r)})
-        else:
-            rep.count("load-error (owned by another check)")
     verdicts, stats = tlc.validate_batch(trace_module, ok)
     rep.traces += len(verdicts)
     rep.extra.setdefault("trace_tlc_states", 0)
@@ -84,6 +83,13 @@ def adjudicate(rep, records, owned, *, trace_module="Trace_Codec", nontrivial=No
             continue
         failed = [c for c in v if c in owned]
         tags = [c for c in v if c.startswith("KF:")]
+        if r["kind"] == "load":
+            if failed:
+                rep.violation(f"definition {'was accepted although a bit-field straddles its unit' if r['loaded'] else 'could not be loaded: ' + r.get('exc', '')} :: {r['defs'][:300]} mode={r['mode']}",
+                              {"kind": "load", "record": r, "python": repro_snippet(r)})
+            else:
+                rep.count("ill-formed definition correctly rejected" if not r["loaded"] else "load ok")
+            continue
         if nontrivial is None or nontrivial(r):
             rep.nontrivial_case([r["defs"], r["mode"], r.get("input"), r.get("start"), r.get("req_compiled"), r.get("tag")])
         rep.sample(slim(r))
